@@ -27,7 +27,13 @@ using namespace coloquinte;
 #endif
 // FAMILY_A: positions symbolic, quantities enumerated 0..QMAX.  FAMILY_B: quantities symbolic, positions enumerated small.
 extern "C" void harness() {
-#ifdef ONLYFULL
+#ifdef SHAPES24
+  // 2 sources x 4 sinks with the quantities of a few tight shapes (a source straddles a sink boundary), positions symbolic
+  static const int SS[4][2] = {{3, 2}, {2, 2}, {3, 1}, {1, 3}};
+  static const int DD[4][4] = {{2, 2, 1, 3}, {1, 1, 1, 1}, {1, 2, 1, 1}, {2, 1, 1, 2}};
+  int shape = __verif_choice(4);
+  int ns = 2, nk = 4;
+#elif defined(ONLYFULL)
   int ns = NS, nk = NK;      // only the largest shape (the smaller ones are covered by another harness)
 #else
   int ns = 1 + __verif_choice(NS), nk = 1 + __verif_choice(NK);
@@ -38,7 +44,12 @@ extern "C" void harness() {
 #ifdef FAMILY_B
     u.push_back(__verif_choice(PRANGE)); s.push_back(__verif_nondet_i64(0, QLIM));
 #else
-    u.push_back(__verif_nondet_i64(-PLIM, PLIM)); s.push_back(SMAX == 0 ? 1 : __verif_choice(SMAX + 1));   // SMAX 0: unit supplies
+    u.push_back(__verif_nondet_i64(-PLIM, PLIM));
+#ifdef SHAPES24
+    s.push_back(SS[shape][i]);
+#else
+    s.push_back(SMAX == 0 ? 1 : __verif_choice(SMAX + 1));   // SMAX 0: unit supplies
+#endif
 #endif
     ts += s[i];
   }
@@ -46,7 +57,12 @@ extern "C" void harness() {
 #ifdef FAMILY_B
     v.push_back(__verif_choice(PRANGE)); d.push_back(__verif_nondet_i64(0, QLIM));
 #else
-    v.push_back(__verif_nondet_i64(-PLIM, PLIM)); d.push_back(DMIN + __verif_choice(QMAX + 1 - DMIN));
+    v.push_back(__verif_nondet_i64(-PLIM, PLIM));
+#ifdef SHAPES24
+    d.push_back(DD[shape][j]);
+#else
+    d.push_back(DMIN + __verif_choice(QMAX + 1 - DMIN));
+#endif
 #endif
     td += d[j];
   }
